@@ -12,7 +12,6 @@ import (
 	"crypto/x509/pkix"
 	"encoding/asn1"
 	"fmt"
-	"io"
 	"math/big"
 	"sync"
 	"testing"
@@ -43,20 +42,6 @@ func withRand(seed uint64, f func()) {
 	f()
 }
 
-type failReader struct{}
-
-func (failReader) Read([]byte) (int, error) { return 0, io.ErrUnexpectedEOF }
-
-// noRand makes any use of crypto/rand.Reader fail (operations that are
-// documented as deterministic, e.g. parsing and verifying, must not need it;
-// RSA PKCS#1 v1.5 decryption does not use it in this toolchain either).
-func noRand(f func()) {
-	old := rand.Reader
-	rand.Reader = failReader{}
-	defer func() { rand.Reader = old }()
-	f()
-}
-
 // ---------------------------------------------------------------- fixtures
 
 var (
@@ -75,8 +60,6 @@ type ident struct {
 	parents []*smx509.Certificate // issuing CA certificates, nearest first, the root excluded
 	root    *smx509.Certificate
 }
-
-func (id *ident) decrypter() crypto.PrivateKey { return id.key }
 
 type fixtures struct {
 	ids   map[string]*ident
@@ -136,6 +119,7 @@ type certOpts struct {
 	cn     string
 	isCA   bool
 	noSKI  bool
+	ski    []byte // overrides the computed key identifier
 	sigAlg x509.SignatureAlgorithm
 }
 
@@ -155,6 +139,9 @@ func mkCert(seed uint64, o certOpts, pub any, parent *smx509.Certificate, signKe
 	}
 	if !o.noSKI {
 		tmpl.SubjectKeyId = keyID(pub)
+		if o.ski != nil {
+			tmpl.SubjectKeyId = o.ski
+		}
 	}
 	p := tmpl
 	if parent != nil {
@@ -193,6 +180,9 @@ func fix() *fixtures {
 				o.serial = new(big.Int).SetBytes(append([]byte{0x80}, gen.Fill(0xC16_5E, 18)...))
 			case 5: // the same serial number as rsa-4, under a different issuer
 				o.serial = big.NewInt(77)
+			case 3: // a key identifier that differs from that of sm2-2 in its last bit only
+				o.ski = append([]byte{}, f.ids["sm2-2"].cert.SubjectKeyId...)
+				o.ski[len(o.ski)-1] ^= 1
 			}
 			c := mkCert(10+uint64(i), o, &k.PublicKey, inter, intK)
 			add(&ident{name: fmt.Sprintf("sm2-%d", i), kind: "sm2", key: k, cert: c, parents: []*smx509.Certificate{inter}, root: root})
